@@ -41,6 +41,7 @@ func boolsFlags(f Bools) Flags {
 //@ func (*Flags).Join
 //@ theory bv
 //@ property C19 C20
+//@ prepare dst.Presence &^= 1; dst.Values &= dst.Presence; src.Presence &^= 1; src.Values &= src.Presence
 //@ requires dst != nil && wfFlags(*dst) && wfFlags(src)
 //@ modifies *dst
 //@ ensures equals-spec: *dst == joinSpec(old(*dst), src)
@@ -49,6 +50,7 @@ func boolsFlags(f Bools) Flags {
 //@ func (*Flags).Set
 //@ theory bv
 //@ property C19 C20
+//@ prepare fs.Presence &^= 1; fs.Values &= fs.Presence
 //@ requires fs != nil && wfFlags(*fs)
 //@ modifies *fs
 //@ ensures equals-join: *fs == joinSpec(old(*fs), boolsFlags(f))
@@ -67,6 +69,7 @@ func boolsFlags(f Bools) Flags {
 //@ func (*Flags).Clear
 //@ theory bv
 //@ property C19 C20
+//@ prepare fs.Presence &^= 1; fs.Values &= fs.Presence
 //@ requires fs != nil && wfFlags(*fs)
 //@ modifies *fs
 //@ ensures presence: fs.Presence == old(fs.Presence)&^uint64(f)
